@@ -521,7 +521,10 @@ func cmdCheck(args []string) int {
 			fmt.Println(map[bool]string{true: "note:", false: "HARNESS-ERROR"}[exit == 1], "conformance: emulated and real-block replay disagree:", firstLines(d, 3))
 		}
 	}
-	if broken || (len(confDiv) > 0 && exit != 1) {
+	if exit == 1 {
+		return 1 // a confirmed violation stands, whatever else went wrong around it
+	}
+	if broken || len(confDiv) > 0 {
 		return 2
 	}
 	return exit
